@@ -200,7 +200,8 @@ CHECKS = {
         text="BFS over the real objects in a 2-session x 2-region universe against a plain list-of-grants reference model (three stated alphabets: full on the first "
              "region, full on the last region in resolution order, lite across all four); after every transition every known URL (plus a suffix) is resolved at "
              "manager, session and region level and every cap name is looked up in every region. A repeated-grants family grants one name 8x with distinct URLs per kind (NORMAL via update_caps / Seed response, WRAPPER, PROXY_ONLY then NORMAL, 1..8 "
-             "one-shots consumed oldest-/newest-first per API) with the full resolve-everything sweep after each grant. The Seed request/response rewriting is additionally enumerated "
+             "one-shots consumed oldest-/newest-first per API) with the full resolve-everything sweep after each grant; an uploads family pushes, for every name in UPLOAD_CREATING_CAPS x region, 1..3 upload-creating "
+             "responses through the real _handle_response before any uploader is used and then resolves the uploader URLs in every order. The Seed request/response rewriting is additionally enumerated "
              "exhaustively over viewer lists x simulator grants behind 9 prefixes through the real event manager.",
         note="The simulator grants only names in the upstream request; Seed URLs unique per region; a live one-shot URL is not registered again; a URL extending several "
              "live grants may resolve to any of them ('extends' is textual), except wrapper URLs which must each resolve to their own region and session; an exception "
